@@ -41,24 +41,29 @@ def run(ctx, config='rel-all'):
             ctx.ok('O1', '%s returns (load(self.ptr), addr(self) - load(self.ptr))' % b['id'], show(r.ret)[:100])
         else:
             ctx.violation('O1', b['id'], 'return', 'the allocated region of a chunk is computed as %s, not (finger, footer - finger)' % show(r.ret)[:160], b.get('span'))
+    check_raw_iterator(ctx, db, config, A)
+    check_r4(ctx, db, config, A)
+
+
+def check_raw_iterator(ctx, db, config, A, only_raw=False):
     # ---- R2 raw iterator
     nxt = {}
     for b in db.fn_bodies():
         m = b['meta']
         if b['kind'] == 'assoc_fn' and m.get('name') == 'next' and m.get('impl_adt') in ('ChunkRawIter', 'ChunkIter'):
             nxt[m['impl_adt']] = b
-    for adt in ('ChunkRawIter', 'ChunkIter'):
+    for adt in (('ChunkRawIter',) if only_raw else ('ChunkRawIter', 'ChunkIter')):
         if adt not in nxt:
             ctx.anchor_missing('R2', adt + '::next')
     if 'ChunkRawIter' in nxt:
         b = nxt['ChunkRawIter']
         I, r = arena.run_fn(ctx, b['id'], config)
         check_next(ctx, I, r, b, ('fld', ('deref', ('param', 1)), 'ChunkRawIter.footer'), raw=True)
-    if 'ChunkIter' in nxt:
+    if 'ChunkIter' in nxt and not only_raw:
         b = nxt['ChunkIter']
         I, r = arena.run_fn(ctx, b['id'], config)
         check_next(ctx, I, r, b, ('fld', ('fld', ('deref', ('param', 1)), 'ChunkIter.raw'), 'ChunkRawIter.footer'), raw=False)
-    for key, want in (('iter_allocated_chunks_raw', 'raw'), ('iter_allocated_chunks', 'safe')):
+    for key, want in ((('iter_allocated_chunks_raw', 'raw'),) if only_raw else (('iter_allocated_chunks_raw', 'raw'), ('iter_allocated_chunks', 'safe'))):
         val = A.get(key)
         if not val:
             ctx.anchor_missing('R2', 'Bump::' + key)
@@ -77,6 +82,9 @@ def run(ctx, config='rel-all'):
                 ctx.ok('R3', 'iter_allocated_chunks takes &mut self', ins[0])
             else:
                 ctx.violation('R3', 'Bump::iter_allocated_chunks', 'receiver', 'the safe chunk iterator does not borrow the arena mutably: allocation during iteration would compile', body.get('span'))
+
+
+def check_r4(ctx, db, config, A):
     # ---- R4 no foreign bytes: classification + exact bump amount
     nb = 0
     for key, val in A.items():
@@ -130,6 +138,13 @@ def run(ctx, config='rel-all'):
             else:
                 ctx.ok('R4', '%s %s via %s: class %s' % (fn, site, key, cls), 'store classification')
     ctx.floor('R4', nb, 10, 'BUMP stores checked for exactness')
+    # ---- R5 / R6: the exactness clause quantifies over histories with resets and with failed fallible initialisers.  After a
+    # reset only the retained chunk may be on the list and it must be empty (the obligations of C06); a failed initialiser
+    # must give its reservation back in every case (the obligations of C11) -- otherwise dead bytes stay inside an iterated slice.
+    from .. import runner
+    from . import c06, c11
+    c06.run(runner.Sub(ctx, 'R5', 'C06'), config)
+    c11.run(runner.Sub(ctx, 'R6', 'C11'), config)
 
 
 def bump_exact(I, P0, x, facts, old, L):
